@@ -413,6 +413,9 @@ def do_replay(path):
     if not ok:
         print(msg)
         return 2
+    if str(d.get("kind", "")).startswith("e2e"):
+        import e2e
+        return e2e.replay(d)
     lake_build(["vfmodel"])
     from props import PROPS  # cases of runner kinds are replayed by their verif-tagged test
     for c in PROPS.get(d.get("property"), {}).get("corr", []):
